@@ -415,7 +415,19 @@ func c05PeerCheck(c *ev.Collector, k c05PeerCase) {
 	}
 	status, header, body, trailer := spec.Build()
 	// self-check: the reference decoder accepts what the reference encoder wrote
-	if self := refwire.DecodeResponse(spec.P, spec.Unary, spec.ContentType, status, header, body, trailer, nil); len(self.Problems) > 0 {
+	self := refwire.DecodeResponse(spec.P, spec.Unary, spec.ContentType, status, header, body, trailer, nil)
+	if spec.TrailerCase == 1 || spec.TrailerCase == 2 {
+		// peers that spell the names of the trailer block in another case are outside the
+		// letter of PROTOCOL-WEB; the library is asked to be liberal and accept them all the same
+		var kept []string
+		for _, p := range self.Problems {
+			if !strings.Contains(p, "is not lower-case") {
+				kept = append(kept, p)
+			}
+		}
+		self.Problems = kept
+	}
+	if len(self.Problems) > 0 {
 		c.HarnessError("%s: refwire rejects its own encoding: %v", k.key(), self.Problems)
 		return
 	}
